@@ -15,26 +15,35 @@ Proof.
   apply Z.leb_le in H. lia.
 Qed.
 
-Lemma to_u32_small eq : 0 <= to_int eq < 4294967296 -> to_u32_wrapping eq = to_int eq.
-Proof. intros H. unfold to_u32_wrapping, wrap_u. apply Z.mod_small. change (2 ^ 32) with 4294967296. lia. Qed.
-
-(* an accepted withdrawal: limit unchanged, window restarted iff due, the new amount is the saturated sum and
-   does not exceed a non-zero limit *)
+(* an accepted withdrawal: limit unchanged, window restarted iff due, the new amount is the clamped u64 sum,
+   and under a non-zero limit the UNCLAMPED sum does not exceed the limit *)
 Lemma update_withdrawn_inv c eq now c' :
   update_withdrawn_equity c eq now = Ok c' ->
+  let base := if reset_due c now then 0 else wc_withdrawn c in
+  let total := Z.min U64_MAX (base + withdrawn_u64 eq) in
   wc_limit c' = wc_limit c /\
   wc_last_reset c' = (if reset_due c now then now else wc_last_reset c) /\
-  wc_withdrawn c' = Z.min U32_MAXZ ((if reset_due c now then 0 else wc_withdrawn c) + to_u32_wrapping eq) /\
-  (wc_limit c <> 0 -> wc_withdrawn c' <= wc_limit c).
+  wc_withdrawn c' = Z.min U32_MAXZ total /\
+  (wc_limit c <> 0 -> total <= wc_limit c).
 Proof.
   unfold update_withdrawn_equity. destruct (reset_due c now); cbn [wc_limit wc_withdrawn wc_last_reset].
-  - destruct (negb (wc_limit c =? 0) && (wc_limit c <? Z.min U32_MAXZ (0 + to_u32_wrapping eq))) eqn:E; [discriminate|].
+  - destruct (negb (wc_limit c =? 0) && (wc_limit c <? Z.min U64_MAX (0 + withdrawn_u64 eq))) eqn:E; [discriminate|].
     intros H. apply Ok_inj in H. subst c'. cbn [wc_limit wc_withdrawn wc_last_reset]. repeat split; try reflexivity. intros Hl. lia.
-  - destruct (negb (wc_limit c =? 0) && (wc_limit c <? Z.min U32_MAXZ (wc_withdrawn c + to_u32_wrapping eq))) eqn:E; [discriminate|].
+  - destruct (negb (wc_limit c =? 0) && (wc_limit c <? Z.min U64_MAX (wc_withdrawn c + withdrawn_u64 eq))) eqn:E; [discriminate|].
     intros H. apply Ok_inj in H. subst c'. cbn [wc_limit wc_withdrawn wc_last_reset]. repeat split; try reflexivity. intros Hl. lia.
 Qed.
 
-Definition WInv (s : wtrace) : Prop := window_dollars (wt_window s) = wc_withdrawn (wt_cache s).
+(* the u64 dollars of an equity: the whole dollars when they fit, u64::MAX otherwise *)
+Lemma withdrawn_u64_spec eq :
+  (0 <= dollars eq <= U64_MAX /\ withdrawn_u64 eq = dollars eq) \/ withdrawn_u64 eq = U64_MAX.
+Proof.
+  unfold withdrawn_u64, to_u64_checked, chko, dollars. destruct (in_u64 (to_int eq)) eqn:E; [left | right; reflexivity].
+  unfold in_u64, in_range in E. split; [lia | reflexivity].
+Qed.
+
+(* ghost invariant: the cache holds exactly the whole dollars accepted since the last reset (a u32 field, >= 0) *)
+Definition WInv (s : wtrace) : Prop :=
+  window_dollars (wt_window s) = wc_withdrawn (wt_cache s) /\ 0 <= wc_withdrawn (wt_cache s).
 
 Lemma wstep_limit s ev : wc_limit (wt_cache (wstep s ev)) = wc_limit (wt_cache s).
 Proof.
@@ -50,41 +59,40 @@ Proof.
 Qed.
 
 Lemma wstep_window s now eq :
-  wc_limit (wt_cache s) <> 0 -> wc_limit (wt_cache s) < 4294967295 ->
-  0 <= dollars eq < 4294967296 ->
+  wc_limit (wt_cache s) <> 0 -> wc_limit (wt_cache s) <= 4294967295 ->
   WInv s -> window_dollars (wt_window s) <= wc_limit (wt_cache s) ->
   WInv (wstep s (now, eq)) /\ window_dollars (wt_window (wstep s (now, eq))) <= wc_limit (wt_cache (wstep s (now, eq))).
 Proof.
-  intros Hl0 Hlt Hd Hinv Hle. unfold wstep.
-  destruct (update_withdrawn_equity (wt_cache s) eq now) as [c'|e] eqn:E; [|split; assumption].
-  apply update_withdrawn_inv in E as (Hl & _ & Hw & Hcap). specialize (Hcap Hl0).
-  rewrite (to_u32_small eq Hd) in Hw. fold (dollars eq) in Hw.
-  rewrite U32_MAXZ_val in Hw. unfold WInv in *.
-  destruct (reset_due (wt_cache s) now); cbn [wt_cache wt_window window_dollars fold_right].
-  - fold (window_dollars []). cbn [window_dollars fold_right]. split; lia.
-  - fold (window_dollars (wt_window s)). split; lia.
+  intros Hl0 Hty [Hinv Hnn] Hle. unfold wstep.
+  destruct (update_withdrawn_equity (wt_cache s) eq now) as [c'|e] eqn:E; [|split; [split|]; assumption].
+  apply update_withdrawn_inv in E as (Hl & _ & Hw & Hcap). cbv zeta in Hw, Hcap. specialize (Hcap Hl0).
+  rewrite U32_MAXZ_val in Hw. rewrite U64_MAX_val in Hw, Hcap. unfold WInv.
+  destruct (withdrawn_u64_spec eq) as [[Hd He]|He]; rewrite He in Hw, Hcap; rewrite ?U64_MAX_val in *.
+  - destruct (reset_due (wt_cache s) now); cbn [wt_cache wt_window window_dollars fold_right].
+    + split; [split|]; lia.
+    + fold (window_dollars (wt_window s)). split; [split|]; lia.
+  - (* a value that does not fit u64 can never be accepted under a u32 limit *)
+    exfalso. destruct (reset_due (wt_cache s) now); lia.
 Qed.
 
-(* with a limit configured, whatever the withdrawals and their timestamps, the whole dollars accepted since
-   the last reset never exceed the limit *)
+(* with a limit configured, whatever the withdrawals (any values, any timestamps), the whole dollars
+   accepted since the last reset never exceed the limit *)
 Theorem daily_limit evs : forall s,
-  wc_limit (wt_cache s) <> 0 -> wc_limit (wt_cache s) < 4294967295 ->
-  (forall ev, In ev evs -> 0 <= dollars (snd ev) < 4294967296) ->
+  wc_limit (wt_cache s) <> 0 -> wc_limit (wt_cache s) <= 4294967295 ->
   WInv s -> window_dollars (wt_window s) <= wc_limit (wt_cache s) ->
   WInv (wrun s evs) /\ window_dollars (wt_window (wrun s evs)) <= wc_limit (wt_cache s).
 Proof.
-  induction evs as [|[now eq] rest IH]; intros s Hl0 Hlt Hev Hinv Hle; [split; assumption|].
+  induction evs as [|[now eq] rest IH]; intros s Hl0 Hty Hinv Hle; [split; assumption|].
   cbn [wrun fold_left]. fold (wrun (wstep s (now, eq)) rest).
-  destruct (wstep_window s now eq Hl0 Hlt (Hev (now, eq) (or_introl eq_refl)) Hinv Hle) as (Hi' & Hle').
+  destruct (wstep_window s now eq Hl0 Hty Hinv Hle) as (Hi' & Hle').
   pose proof (wstep_limit s (now, eq)) as HL.
   destruct (IH (wstep s (now, eq))) as (A & B); try assumption; try (rewrite HL; assumption).
-  - intros ev Hin. apply Hev. right. exact Hin.
-  - split; [exact A|]. rewrite HL in B. exact B.
+  split; [exact A|]. rewrite HL in B. exact B.
 Qed.
 
 (* a fresh window *)
 Lemma fresh_window limit now : WInv (mkWT (mkWC limit 0 now) [] []) /\ window_dollars [] <= 0.
-Proof. unfold WInv. cbn. split; [reflexivity | lia]. Qed.
+Proof. unfold WInv. cbn. split; [split; [reflexivity | lia] | lia]. Qed.
 
 (* the group admin's configure keeps the ghost invariant (it never touches the amount withdrawn) *)
 Lemma configure_keeps_winv s limit now c' :
@@ -92,7 +100,7 @@ Lemma configure_keeps_winv s limit now c' :
   WInv (mkWT c' (wt_window s) (wt_resets s)) /\ wc_limit c' = limit /\ limit <> 0.
 Proof.
   unfold configure_withdrawal_limit, WInv. intros Hinv H.
-  apply bind_ok in H as (u & Hc & H). apply check_inv_d in Hc. apply Ok_inj in H. subst c'. cbn. split; [exact Hinv|]. split; [reflexivity | lia].
+  apply bind_ok in H as (u & Hc & H). apply check_inv_d in Hc. apply Ok_inj in H. subst c'. cbn [wt_cache wt_window wc_withdrawn wc_limit]. split; [exact Hinv|]. split; [reflexivity | lia].
 Qed.
 
 (* resets are at least a day apart *)
@@ -119,27 +127,15 @@ Proof.
   cbn [wrun fold_left]. fold (wrun (wstep s ev) rest). apply IH. apply wstep_resets; [right; exact I | exact H].
 Qed.
 
-(* the two u32 defects of the window *)
-Theorem daily_limit_wrap_refuted :
-  exists s now eq, wc_limit (wt_cache s) = 1000 /\ WInv s /\ window_dollars (wt_window s) = 0 /\
-    dollars eq = 4294967296 + 5 /\
-    update_withdrawn_equity (wt_cache s) eq now = Ok (mkWC 1000 5 (wc_last_reset (wt_cache s))) /\
-    window_dollars (wt_window (wstep s (now, eq))) > 1000.
-Proof.
-  exists (mkWT (mkWC 1000 0 1700000000) [] []), 1700000001, (of_int (4294967296 + 5)).
-  vm_compute. repeat split; reflexivity.
-Qed.
+(* the two repaired u32 defects, as regression facts: a withdrawal of 2^32 + 5 dollars under a limit of 1000
+   and a second 3e9 dollars under a limit of u32::MAX are refused *)
+Lemma wrap_case_refused :
+  update_withdrawn_equity (mkWC 1000 0 1700000000) (of_int (4294967296 + 5)) 1700000001 = Err (E E_DailyWithdrawalLimitExceeded).
+Proof. reflexivity. Qed.
 
-Theorem daily_limit_saturation_refuted :
-  exists s evs, wc_limit (wt_cache s) = 4294967295 /\ WInv s /\ window_dollars (wt_window s) = 0 /\
-    (forall ev, In ev evs -> 0 <= dollars (snd ev) < 4294967296) /\
-    window_dollars (wt_window (wrun s evs)) = 6000000000 /\ wc_withdrawn (wt_cache (wrun s evs)) = 4294967295.
-Proof.
-  exists (mkWT (mkWC 4294967295 0 1700000000) [] []), [(1700000001, of_int 3000000000); (1700000002, of_int 3000000000)].
-  split; [reflexivity|]. split; [reflexivity|]. split; [reflexivity|]. split.
-  - intros ev [<-|[<-|[]]]; (split; vm_compute; [discriminate | reflexivity]).
-  - vm_compute. split; reflexivity.
-Qed.
+Lemma saturation_case_refused :
+  update_withdrawn_equity (mkWC 4294967295 3000000000 1700000000) (of_int 3000000000) 1700000002 = Err (E E_DailyWithdrawalLimitExceeded).
+Proof. reflexivity. Qed.
 
 (* ---------------------------------------------------------------- the transaction *)
 Lemma nth_res_set_same {A} (l : list A) : forall n v y, nth_res n l = Ok y -> nth_res n (set_nth n v l) = Ok v.
